@@ -18,9 +18,20 @@ def channel_arrays(ch, T=None):
         if s.kind == "pulse":
             amp[s.ti:s.tf] += s.pulse.amp
             det[s.ti:s.tf] += s.pulse.det
+        elif s.in_eom and s.tf > s.ti:
+            # idle time inside an EOM block is at the block's off-detuning whatever the slot is called
+            det[s.ti:s.tf] += eom_off_at(ch, s.ti)
     if T > end and ch.in_eom():
         det[end:] = ch.eom_blocks[-1][2]
     return amp, det
+
+
+def eom_off_at(ch, t) -> float:
+    """Off-detuning of the EOM block containing time t (0 outside blocks)."""
+    for b in ch.eom_blocks:
+        if b[3] <= t < (ch.end if b[4] is None else b[4]):
+            return b[2]
+    return 0.0
 
 
 def weights_of(ch, world) -> dict:
@@ -66,6 +77,9 @@ def atom_view(snap, world):
         wts = weights_of(ch, world) if ch.is_dmm else None
         for s in ch.slots:
             if s.kind != "pulse":
+                if s.in_eom and s.tf > s.ti:
+                    for q in s.targets:
+                        d[q][1][s.ti:s.tf] += eom_off_at(ch, s.ti)
                 continue
             for q in s.targets:
                 ti = s.ti
